@@ -1451,7 +1451,10 @@ class Interp(object):
                         if len(ii) != len(obj.items):
                             raise Undecided('mask length')
                         return SArr([v for v, m in zip(obj.items, ii) if m])
-                    return SArr([obj.items[i] for i in ii])
+                    try:
+                        return SArr([obj.items[i] for i in ii])
+                    except IndexError:
+                        raise PyRaise('IndexError')
             except IndexError:
                 raise PyRaise('IndexError')
             raise Undecided('array index %r' % (idx,))
@@ -1714,6 +1717,12 @@ class Interp(object):
             return r * l
         if isinstance(l, str) and op is ast.Mod:
             return l
+        if isinstance(l, str) and isinstance(r, str) and op is ast.Add:
+            return l + r
+        _native = (str, list, tuple, dict, type(None))
+        if isinstance(l, _native) and isinstance(r, _native):
+            # Python itself rejects the remaining combinations
+            raise PyRaise('TypeError')
         raise Undecided('operator %s on %r, %r' % (op.__name__, l, r))
 
     def scalar_is_zero(self, r):
@@ -1774,6 +1783,10 @@ class Interp(object):
         if isinstance(f, ast.Name) and f.id in _PY_BUILTINS and \
                 not scope.has(f.id):
             args, kwargs = self.ev_args(n, scope, func)
+            if self.hooks is not None:
+                ov = self.hooks.on_name(self, f.id)
+                if ov is not NotImplemented:
+                    return self.call(ov, args, kwargs, n)
             return self.py_builtin(f.id, args, kwargs, n, scope, func)
         callee = self.ev(f, scope, func)
         args, kwargs = self.ev_args(n, scope, func)
@@ -1817,6 +1830,8 @@ class Interp(object):
             if isinstance(v, SpaceV) and v.parts is not None:
                 return len(v.parts)
             if isinstance(v, (list, tuple, dict, str, range)):
+                return len(v)
+            if hasattr(type(v), '__len__'):
                 return len(v)
             raise Undecided('len(%r)' % (v,))
         if name == 'int':
